@@ -52,11 +52,19 @@ def ape(traj_ref: PosePath3D, traj_est: PosePath3D,
     alignment_transformation = None
     if align or correct_scale:
         logger.debug(SEP)
-        alignment_transformation = lie_algebra.sim3(
-            *traj_est.align(traj_ref, correct_scale, only_scale, n=n_to_align))
+        r_a, t_a, s = traj_est.align(traj_ref, correct_scale, only_scale,
+                                     n=n_to_align)
+        if only_scale:
+            # Only the scale was applied, not the rotation and translation.
+            r_a, t_a = np.eye(3), np.zeros(3)
+        alignment_transformation = lie_algebra.sim3(r_a, t_a, s)
     if align_origin:
         logger.debug(SEP)
-        alignment_transformation = traj_est.align_origin(traj_ref)
+        to_ref_origin = traj_est.align_origin(traj_ref)
+        # Applied on top of a preceding alignment, if there was one.
+        alignment_transformation = (
+            to_ref_origin if alignment_transformation is None else np.dot(
+                to_ref_origin, alignment_transformation))
 
     # Projection is done after potential 3D alignment & transformation steps.
     if project_to_plane:
